@@ -13,7 +13,7 @@ func init() {
 }
 
 func checkC10(r *Run) {
-	r.Explain = "Does NOT decide the headline (no duplication, in-order delivery, behaviour under lapping: these quantify over interleavings of atomic operations). Decides the sequential preconditions every schedule relies on: A19 nothing reachable from diode.Writer.Write (VTA call graph, module functions) takes a lock, waits, sleeps, performs a channel operation or calls the wrapped writer — the producer cannot wait for the consumer or a slow writer; COPY the pointer published to the ring designates a local whose value is append(<pool buffer>, p...), never p itself, on every path that reaches Set (zerolog recycles p after Write returns); SINGLE exactly one go statement starts poll and Next/TryNext are reached only from it (deliveries happen one at a time); A13 the copy is returned to bufPool only after the wrapped Write returned and is not touched afterwards; A14 ring fields are accessed only through sync/atomic and readIndex only by the consumer; TAKE the consumer empties a slot with a single atomic SwapPointer(slot, nil) and takes every decision (empty, stale, lapped, regular) and the delivered data from the very bucket that exchange returned (no peek-then-swap window), and every attempt of Set starts from scratch: nothing read from a ring slot is carried across a retry (a remembered bucket from a lost attempt is not one this producer took out of the ring)."
+	r.Explain = "Does NOT decide the headline (no duplication, in-order delivery, behaviour under lapping: these quantify over interleavings of atomic operations). Decides the sequential preconditions every schedule relies on: A19 nothing reachable from diode.Writer.Write (VTA call graph, module functions) takes a lock, waits, sleeps, performs a channel operation or calls the wrapped writer — the producer cannot wait for the consumer or a slow writer; COPY the pointer published to the ring designates a local whose value is append(<pool buffer>, p...), never p itself, on every path that reaches Set (zerolog recycles p after Write returns); SINGLE exactly one go statement starts poll and Next/TryNext are reached only from it (deliveries happen one at a time); A13 the copy is returned to bufPool only after the wrapped Write returned and is not touched afterwards; A14 ring fields are accessed only through sync/atomic and readIndex only by the consumer; TAKE the consumer empties a slot with a single atomic SwapPointer(slot, nil) and takes every decision (empty, stale, lapped, regular) and the delivered data from the very bucket that exchange returned (no peek-then-swap window), and every attempt of Set starts from scratch: nothing read from a ring slot is carried across a retry (a remembered bucket from a lost attempt is not one this producer took out of the ring). TAKE claim-on-every-retry: every loop of Set passes through the fetch-add (no inner loop re-trying a position already held)."
 	r.NotDec = "Ordering, no-duplication, 'byte-identical to exactly one earlier Write', behaviour when producers lap the consumer, alert counts: schedule-quantified, not decided by this family (would need a verified model of the ring algorithm)."
 	r.Assume = []string{"log.Println on the collision arm may block on stderr; it does not involve the wrapped writer (observation, not a C10 violation as stated)"}
 	r.Trusted = []string{"x/tools callgraph/vta"}
@@ -33,6 +33,7 @@ func checkC10(r *Run) {
 	ruleConsumerPrivate(r, p)
 	ruleTakeAtomically(r, p, "TAKE")
 	ruleSetRetryStateless(r, p, "TAKE")
+	ruleClaimOnEveryRetry(r, p, "TAKE")
 	r.Floor("TAKE", 2)
 	r.Floor("A19", 3)
 	r.Floor("COPY", 1)
